@@ -1,3 +1,62 @@
 // harnesses mounted as child module of agdb/src/graph_search/search_impl.rs
 #[allow(unused_imports)]
 use super::*;
+
+use crate::graph::verif_h::{RefGraph, graph_step, new_arr_graph};
+use crate::graph_search::breadth_first_search::BreadthFirstSearch;
+use crate::graph_search::depth_first_search::DepthFirstSearch;
+use crate::verif_support::{ArrGraph, ArrStorage, ok};
+
+struct C14Count {
+    calls: u32,
+    last: i64,
+    last_distance: u64,
+}
+
+impl SearchHandler for C14Count {
+    fn process(&mut self, index: GraphIndex, distance: u64) -> Result<SearchControl, DbError> {
+        self.calls += 1;
+        self.last = index.0;
+        self.last_distance = distance;
+        Ok(SearchControl::Continue(true))
+    }
+}
+
+//@ id=C14 tier=quick timeout=600 bounds="concrete graph nodes 1,2, edge -3 = 1->2; element x in {1, 2, -3} (symbolic) offered to SearchImpl::process_index twice with different distances; BreadthFirstSearch and DepthFirstSearch iterators" desc="an element taken from the work list is examined and added to the result only the first time (visited set checked when the element is taken, so duplicates queued over parallel routes are dropped); the handler sees the distance of the first visit" kernel="SearchImpl::process_index,SearchImpl::visit_index,SearchImpl::process_unvisited_index,SearchImpl::take_result" args="--no-assertion-reach-checks" cbmc="--unwindset _RINvNtCs8xvirJzNMvV_4core3ptr9drop_glueNtNtNtCsblifWy3Zr35_4agdb2db8db_error7DbErrorEBH_:1"
+#[kani::proof]
+#[kani::stub(std::fmt::format, crate::verif_support::fmt_stub)]
+#[kani::stub(crate::DbError::new, crate::verif_support::dberror_new_stub)]
+#[kani::unwind(6)]
+fn c14_visited_checked_on_pop() {
+    let mut s = crate::storage::verif_h::fresh_arr_storage();
+    let mut g = new_arr_graph();
+    let mut m = RefGraph::with_limit(4);
+    graph_step(&mut g, &mut s, &mut m, 0, 0, 0);
+    graph_step(&mut g, &mut s, &mut m, 0, 0, 0);
+    graph_step(&mut g, &mut s, &mut m, 1, 1, 2);
+    let x: i64 = kani::any();
+    kani::assume(x == 1 || x == 2 || x == -3);
+    let mut h = C14Count { calls: 0, last: 0, last_distance: 0 };
+    let mut bfs = SearchImpl::<ArrStorage, ArrGraph, BreadthFirstSearch>::new(&g, &s, GraphIndex(1));
+    let go = ok(bfs.process_index(SearchIndex { index: GraphIndex(x), distance: 2 }, &mut h));
+    assert!(go && h.calls == 1 && h.last == x && h.last_distance == 2, "first visit not examined");
+    let go = ok(bfs.process_index(SearchIndex { index: GraphIndex(x), distance: 4 }, &mut h));
+    assert!(go && h.calls == 1, "second visit examined again");
+    let r = bfs.take_result();
+    assert!(r.len() == 1 && r[0].0 == x, "element not exactly once in the result");
+    std::mem::forget(r);
+    let mut h = C14Count { calls: 0, last: 0, last_distance: 0 };
+    let mut dfs = SearchImpl::<ArrStorage, ArrGraph, DepthFirstSearch>::new(&g, &s, GraphIndex(1));
+    let go = ok(dfs.process_index(SearchIndex { index: GraphIndex(x), distance: 1 }, &mut h));
+    assert!(go && h.calls == 1 && h.last_distance == 1, "first visit not examined (DFS)");
+    let go = ok(dfs.process_index(SearchIndex { index: GraphIndex(x), distance: 3 }, &mut h));
+    assert!(go && h.calls == 1, "second visit examined again (DFS)");
+    let r = dfs.take_result();
+    assert!(r.len() == 1 && r[0].0 == x, "element not exactly once in the result (DFS)");
+    std::mem::forget(r);
+    kani::cover!(x == -3, "edge");
+    kani::cover!(true, "end of harness reachable");
+    std::mem::forget(bfs);
+    std::mem::forget(dfs);
+    std::mem::forget(s);
+}
